@@ -309,3 +309,42 @@ Theorem lexer_reads_rendered_domains : forall ds rest,
   = (mkS rest false, map (fun d => (fst d, map dtok_of (snd d))) ds).
 Proof. exact read_domains_rendered. Qed.
 Print Assumptions lexer_reads_rendered_domains.
+
+(* --- .cond round trip at character level: a file written line by line (comments anywhere, "name value" entries in any
+   order) is read back as the names of its entries in order; the k-th entry carries the k-th value, so with
+   cond_attached_by_name the name -> value table is recovered.  (A name without a value token is an error since e52f7cb;
+   whether a token is a number is modelled in coq/Geom/CondSensors.v.) *)
+From OM Require Import Geom.CondLexProofs.
+Theorem cond_render_roundtrip : forall ls, Forall kline_ok ls -> lex_cond (render_cond ls) = Some (entry_names ls).
+Proof. exact CondLexProofs.cond_render_roundtrip. Qed.
+Print Assumptions cond_render_roundtrip.
+
+(* --- the character-level reader refines the token-level one on a whole well-formed file (1.1 syntax with a Meshes
+   section and named entries: what save_geom writes and the sample data use).  Not covered by the theorem (tied by
+   co-execution on every generated file): 1.0 syntax, unnamed entries, interface shorthand, comments / free layout;
+   MeshFile (vtp) sections are outside the model. *)
+From OM Require Import Geom.GeomLexRefine.
+Theorem lexer_refines_token_reader : forall cm ci cd ms ifs ds, well_formed_render cm ci cd ms ifs ds ->
+  lex_geom (render_v11 cm ci cd ms ifs ds) = Some (tokens_v11 ms ifs ds).
+Proof. exact GeomLexRefine.lexer_refines_token_reader. Qed.
+Print Assumptions lexer_refines_token_reader.
+
+(* consequence: reading the rendered file and resolving its names gives the description the token-level theorems
+   (parse_geom, rename_equivariant, ...) talk about *)
+Theorem rendered_file_parses_as_its_tokens : forall cm ci cd ms ifs ds payload f T,
+  well_formed_render cm ci cd ms ifs ds -> to_gfile (tokens_v11 ms ifs ds) payload = Some (f, T) ->
+  match lex_geom (render_v11 cm ci cd ms ifs ds) with
+  | Some x => match to_gfile x payload with Some (f', T') => parse_geom (numname_of T') f' | None => None end
+  | None => None
+  end = parse_geom (numname_of T) f.
+Proof.
+  intros cm ci cd ms ifs ds payload f T W H. rewrite (GeomLexRefine.lexer_refines_token_reader _ _ _ _ _ _ W), H. reflexivity.
+Qed.
+Print Assumptions rendered_file_parses_as_its_tokens.
+
+Local Open Scope nat_scope.
+(* a concrete instance, computed: one mesh "m" stored in "a.tri", interface "I: +m", domains "A: -I" and "B: I" *)
+Example lexer_refines_token_reader_instance :
+  lex_geom (render_v11 [49] [49] [50] [([109], [97; 46; 116; 114; 105])] [([73], [[43; 109]])] [([65], [[45; 73]]); ([66], [[73]])])
+  = Some (tokens_v11 [([109], [97; 46; 116; 114; 105])] [([73], [[43; 109]])] [([65], [[45; 73]]); ([66], [[73]])]).
+Proof. vm_compute. reflexivity. Qed.
